@@ -655,3 +655,25 @@ def r14(ctx):
                         [('' if p_ else '!') + show_in(b, c_)[:60] for c_, p_ in body_[0].conds]), t.span)
         w = core(sym(b, t.args[1]))
         ctx.require(has(w, ('upvar', ANY, ANY)) or has(w, Pred(lambda u: u[0] in ('upvar', 'var') and 'char_grams' in str(u))), b, 'ngram-width', 'the window width is char_grams', None, t.span)
+
+
+@rule('C20', 'R-C20-15', 'T11 SIBLING (one unit: characters, not bytes, in get_closest)',
+      'get_closest measures its candidates with edit::distance(s) over grapheme clusters only: the BYTE length of the query or of an entry '
+      '(`key.len()`, `ns.len()`) flows into nothing but capacity hints. A pruning bound or ordering computed from byte lengths agrees with the '
+      'distance for ASCII and skips the closest entry when it contains multi-byte characters')
+def r15(ctx):
+    from rules.common import length_consumers, closures_in, debug_only_blocks
+    b = ctx.body(D + 'get_closest')
+    n = 0
+    for x in [b] + closures_in(ctx, b):
+        dbg = debug_only_blocks(x)
+        for t in x.calls(r'(?<![A-Za-z])str::len$|(?<![A-Za-z])String::len$'):
+            if t.span.get('exp') or t.bb in dbg:
+                continue
+            n += 1
+            cons = length_consumers(x, t)
+            ctx.require(not cons, x, 'byte-length|get_closest', 'get_closest: the byte length taken at line %d only sizes a buffer' % t.span['line'],
+                        'get_closest: the BYTE length `%s` (line %d) is used in `%s` (line %d): the distances it is weighed against count grapheme clusters' % (
+                            show_in(x, sym(x, t.args[0]))[:30] + '.len()', t.span['line'],
+                            ((cons[0].callee_res() or '') if cons and cons[0].kind == 'call' else 'a comparison').rsplit('::', 1)[-1], cons[0].span['line'] if cons else 0), t.span)
+    ctx.ok(b, '%d byte-length reads in get_closest inspected' % n)
